@@ -123,8 +123,16 @@ def expected_nodes(c):
         for f, q in spec.merge_day(ents):
             v = Fraction(float(Fraction(spec.fmt_fixed(q, 2))))      # read back as the nearest float64
             els.append((f, '%d/%d' % (v.numerator, v.denominator)))
-        out.append((fmt_date_layout(d, c.meta['layout']).encode(), els, [(a, b_) for a, b_ in ns]))
+        out.append((fmt_date_layout(d, c.meta['layout']).encode(), els, [as_read(a, b_) for a, b_ in ns]))
     return out
+
+
+def as_read(name, value):
+    """a text note that contains a colon is a named note: the name ends at the first colon"""
+    if name == b'' and b':' in value:
+        i = value.index(b':')
+        return (value[:i].strip(b'# \t'), value[i + 1:].strip())
+    return (name, value)
 
 
 def judge_readback(ctx, stage1, impl1):
@@ -133,7 +141,7 @@ def judge_readback(ctx, stage1, impl1):
     pcs = []
     for c in stage1:
         i = impl1[c.id]
-        if i.get('status') == 'ok' and not c.meta.get('hard'):
+        if i.get('status') == 'ok':
             pc = ParseCase(unhx(i['out']), None, {'parent': c})
             pc.id = ctx.fresh('rb')
             pcs.append(pc)
